@@ -17,7 +17,7 @@ sys.path.insert(0, os.path.join(VERIF, 'tools'))
 import cxx2c
 
 STD_CHECKS = ['--bounds-check', '--pointer-check', '--signed-overflow-check', '--unsigned-overflow-check',
-              '--div-by-zero-check']
+              '--div-by-zero-check', '--no-pointer-primitive-check']
 MEM_LIMIT = 16 << 30
 CONTRACT_CLASSES = ('postcondition', 'precondition', 'loop_invariant_base', 'loop_invariant_step',
                     'loop_decreases', 'loop_step_unwinding', 'assertion', 'assigns', 'unwind')
@@ -166,28 +166,34 @@ def run_job(unit, job, c_path, workdir, tier):
         timeout = job.get('timeout', 300) * (3 if tier == 'thorough' else 1)
         if job.get('per_property'):
             # long straight-line code: one cbmc process per assertion (DESIGN probe E)
-            rc, out, _ = run(['cbmc', binary, '--show-properties', '--json-ui'] + job.get('checks', STD_CHECKS), 300, workdir)
+            rc, out, _ = run(['cbmc', binary, '--show-properties', '--json-ui'] + job.get('checks', STD_CHECKS) +
+                             (['--drop-unused-functions'] if job.get('kind', 'enforce') == 'plain' else []) +
+                             (['--unwind', str(job['unwind'])] if job.get('unwind') is not None else []), 300, workdir)
             props = []
             for o in json.loads(out):
                 if 'properties' in o:
                     props = [p['name'] for p in o['properties']]
             sel = [p for p in props if re.search(job['per_property'], p)]
-            rest_results = []
+            rest = [p for p in props if p not in set(sel)]
+            groups = [[p] for p in sel] + ([rest] if rest else [])
             allres = []
-            def one(pid):
-                c = cbmc_cmd(job, binary, ['--property', pid])
-                return pid, run(c, timeout, workdir)
+            def one(grp):
+                extra = []
+                for pid in grp: extra += ['--property', pid]
+                c = cbmc_cmd(job, binary, extra)
+                return grp, run(c, timeout, workdir)
             with ThreadPoolExecutor(max_workers=job.get('pp_workers', 8)) as ex:
-                outs = list(ex.map(one, sel))
-            res['cmds'].append(' '.join(cbmc_cmd(job, binary, ['--property', '<each of %d ids>' % len(sel)])))
-            for pid, (rc, out, w) in outs:
+                outs = list(ex.map(one, groups))
+            res['cmds'].append(' '.join(cbmc_cmd(job, binary, ['--property', '<one process per obligation for %d obligations, one more for the other %d>' % (len(sel), len(rest))])))
+            for grp, (rc, out, w) in outs:
                 if rc == -9:
-                    res['status'] = 'timeout'; res['note'] = 'timeout on ' + pid; continue
+                    res['status'] = 'timeout'; res['note'] = 'timeout on ' + grp[0]; continue
                 results, msgs, solver, backend = parse_cbmc_json(out)
                 if results is None:
-                    res['status'] = 'error'; res['note'] = 'cbmc output unparsable for ' + pid + out[-500:]; continue
+                    res['status'] = 'error'; res['note'] = 'cbmc output unparsable for ' + grp[0] + out[-500:]; continue
                 res['solver_s'] += solver
-                allres += [r for r in results if r['property'] == pid]
+                gs = set(grp)
+                allres += [r for r in results if r['property'] in gs]
             res['results'] = allres
             res['backend'] = 'SAT (minisat2, cbmc default), one process per obligation'
         else:
@@ -381,9 +387,13 @@ def main():
         # ---------------- judge
         obligations = discharged = 0; vac_total = vac_ok = 0
         failures = []   # (res, result-entry)
-        bounded = []; samples = []; per_job = []
+        bounded = []; samples = []; per_job = []; attempts = []
         for res in all_res:
             u, j, c = jobmap[(res['unit'], res['job'])]
+            if res['status'] == 'timeout' and j.get('optional'):
+                # thorough-tier proof attempt that may not close (DESIGN probe D shapes): recorded, never counted, never an alarm
+                attempts.append(dict(job=res['job'], unit=res['unit'], result='did not close within %ss' % (j.get('timeout', 300) * (3 if args.tier == 'thorough' else 1))))
+                continue
             if res['status'] != 'ok':
                 undecided.append('%s.%s: %s %s' % (res['unit'], res['job'], res['status'], res['note'][:1500]))
                 continue
@@ -491,7 +501,7 @@ def main():
         wall = time.time() - t0
         if not args.no_evidence and not args.unit and not args.job:
             write_evidence(prop, args.tier, seed, all_res, per_job, infos, obligations, discharged, vac_total, vac_ok,
-                           bounded, samples, violations, known_hits, undecided, wall, units, jobmap)
+                           bounded, samples, violations, known_hits, undecided, wall, units, jobmap, attempts)
         print('%s: %d obligations, %d discharged, %d vacuity guards ok, %d bounded stand-ins, %d violations, %d undecided, %.1fs'
               % (prop, obligations, discharged, vac_ok, len(bounded), len(violations), len(undecided), wall))
         if violations: return 1
@@ -502,7 +512,7 @@ def main():
         else: shutil.rmtree(workdir, ignore_errors=True)
 
 def write_evidence(prop, tier, seed, all_res, per_job, infos, obligations, discharged, vac_total, vac_ok,
-                   bounded, samples, violations, known_hits, undecided, wall, units, jobmap):
+                   bounded, samples, violations, known_hits, undecided, wall, units, jobmap, attempts):
     used_units = sorted({r['unit'] for r in all_res})
     trusted = []; notcov = []; assumptions = []; observations = []
     fns = []
@@ -546,7 +556,7 @@ def write_evidence(prop, tier, seed, all_res, per_job, infos, obligations, disch
     level = 'other' if only_bounded else 'proof'
     cov = dict(obligations=obligations, discharged=discharged, checker_cmd=checker_cmd,
                trusted_base=base_trusted + trusted,
-               functions_under_contract=fns, jobs=per_job, bounded=bounded,
+               functions_under_contract=fns, jobs=per_job, bounded=bounded, optional_attempts=list(attempts),
                vacuity_guards=dict(total=vac_total, failed_as_required=vac_ok),
                extraction_diff_lines=difflines,
                solver_seconds=round(sum(r['solver_s'] for r in all_res), 2),
